@@ -2,7 +2,7 @@
    fuel; what it leaves unread is a suffix no longer than the input. For every descriptor, every registry. *)
 From Coq Require Import NArith ZArith List Bool Lia.
 From Coq.Strings Require Import Byte.
-From Opcua Require Import Model.CodecTypes Model.Codec.
+From Opcua Require Import Model.CodecTypes Model.Codec Model.CodecWf.
 Import ListNotations.
 Open Scope Z_scope.
 
@@ -442,18 +442,6 @@ Section Deep.
 End Deep.
 
 (* ------------------------------------------------------------------ soundness side condition of the decodeSlice guard *)
-Definition cminsize (c : custom) : nat :=
-  match c with
-  | CVariant | CDataValue | CDiagInfo | CLocText => 1 | CNodeID | CExpNodeID => 2 | CExtObj => 3 | CGUID => 16
-  end.
-(* least number of bytes a decoded element of this type occupies on the wire *)
-Fixpoint minsize (t : ty) : nat :=
-  match t with
-  | TBool => 1 | TInt w _ => w | TFloat w => w | TString => 4 | TTime => 8 | TBytes => 4 | TSlice _ => 4
-  | TPtr e => minsize e
-  | TStruct fs => fold_right (fun f a => minsize f + a)%nat 0%nat fs
-  | TCustom c => cminsize c
-  end.
 (* every slice in the descriptor has elements of at least one byte: "n > remaining bytes" cannot be a valid array *)
 Fixpoint slices_ok (t : ty) : bool :=
   match t with
